@@ -83,3 +83,24 @@ Print Assumptions C05_driver_list_is_chronological.
 Theorem C05_driver_maps_sparse_variables_first : scp_put_dense_first = false.
 Proof. reflexivity. Qed.
 Print Assumptions C05_driver_maps_sparse_variables_first.
+
+(* ---- about the regenerated glue of create_state_choice_space (Gen/StateSpaceGlue.v) ------------- *)
+From LCM Require Import Gen.ChoiceAxes Gen.StateSpaceGlue Proofs.C18_ChoiceAxes Proofs.C05_SpaceGlue.
+(* the dense axes that survive the reduction over the dense choice axes (C18's regenerated choice     *)
+(* axes) are, in the order of variable_info, exactly the dense state axes the space info announces,    *)
+(* preceded by "state_index" iff there is a filter-restricted state -- the documented layout            *)
+Theorem C05_code_surviving_axes_are_the_announced_axes : forall (vi0 : list varinfo) (period : nat) (is_last_period : bool),
+  let vi := if is_last_period then filter (fun v => negb (is_auxiliary v)) vi0 else vi0 in
+  let plan := create_state_choice_space_plan vi0 period is_last_period in
+  (forall v, In v vi -> is_state v = negb (is_choice v)) ->
+  map vname (filter (fun v => negb (is_choice v)) (dense_layout vi))
+  = (if existsb (fun v => is_sparse v && is_state v) vi then tl (axis_names plan) else axis_names plan).
+Proof. exact surviving_dense_axes_are_the_announced_ones. Qed.
+Print Assumptions C05_code_surviving_axes_are_the_announced_axes.
+
+Theorem C05_code_state_index_axis_iff_restricted_states : forall (vi0 : list varinfo) (period : nat) (is_last_period : bool),
+  let plan := create_state_choice_space_plan vi0 period is_last_period in
+  (exists r, axis_names plan = "state_index"%string :: r /\ has_state_indexer plan = true)
+  \/ (has_state_indexer plan = false /\ indexer_axis_names plan = None).
+Proof. exact state_index_axis_iff_sparse_states. Qed.
+Print Assumptions C05_code_state_index_axis_iff_restricted_states.
